@@ -292,6 +292,10 @@ def add_consumer_side(b, rng, fe, n_int, focus='c03', lp_prob=0.1, transparent=F
             kw['param_obj'] = True
         if rng.random() < 0.35:
             kw['mbf'] = True
+        if rng.random() < 0.08:
+            kw['name_buf'] = rng.choice(['bytearray', 'memoryview'])
+        if rng.random() < 0.05:
+            kw['send_fails'] = True         # the transport raises on this send (direct faces only)
         if fe == 'v1' and rng.random() < 0.25:
             kw['need_raw'] = True           # the caller asks for the received packet as well (a fourth result)
         if rec.get('app_param') is not None and rng.random() < 0.3:
